@@ -257,4 +257,5 @@ for _pid in ('C01', 'C02', 'C03', 'C04', 'C05', 'C06', 'C07', 'C08', 'C09', 'C10
     more(_pid, 'memo-invalidation rule over the attributed classes; contradicted-belief rule on emptiness', f'{_pid}.z_memo a field filled lazily from other fields is reset by every method that reassigns one of those fields; '
          f'{_pid}.z_first x[0] / x[-1] of a sequence the function itself tests for emptiness only where a dominating condition excludes the empty case; '
          f'{_pid}.z_inv a back-mapping built in a nested loop (inner value -> outer value) keeps every owner or guards against repeats; '
-         f'{_pid}.z_coord the .x of a caller\'s qubit becomes a container index / payload position only in a function that compares it with 0')
+         f'{_pid}.z_coord the .x of a caller\'s qubit becomes a container index / payload position only in a function that compares it with 0; '
+         f'{_pid}.z_none call sites of one `-> T | None` function (T sized) agree that absence is tested with `is None`, not by truthiness')
